@@ -171,6 +171,9 @@ def make(kind, params):
     import vectorizers as V
     import vectorizers.transformers as T
     p = dict(params)
+    if isinstance(p.get("metric"), str) and p["metric"].startswith("callable:"):
+        from pynndescent.distances import named_distances        # the documented callable form of the metric
+        p["metric"] = named_distances[p["metric"].split(":", 1)[1]]
     cls = {
         "ngram": V.NgramVectorizer, "skipgram": V.SkipgramVectorizer, "lz": V.LZCompressionVectorizer,
         "bpe": V.BytePairEncodingVectorizer, "histogram": V.HistogramVectorizer, "kde": V.KDEVectorizer,
